@@ -291,6 +291,13 @@ class W4Device(object):
         self.k.time.sleep(0.001)
 
 
+class _Probe(object):
+    _closed = False
+
+
+_PROBE = _Probe()
+
+
 class Frontend(object):
     """builds the real ContactlessFrontend on a proxied device through the real open() path"""
 
@@ -316,7 +323,11 @@ class Frontend(object):
         if self.fail_open:
             self.fail_open -= 1
             return None
-        inner = self.make_device(path)
+
+        def probe():
+            # the driver's own search and initialisation talks to the hardware: a driver call like any other
+            return self.make_device(path)
+        inner = self.rec.driver_call(_PROBE, "device.connect", probe, (), {}) if self.rec.clf is not None else probe()
         if inner is None:
             return None
         p = DriverProxy(self.rec, inner)
